@@ -90,7 +90,7 @@ CLAIMED = {
              "output_members_honour_hints (same on the raw value written), tables_reachable (every table entry is referred to by a stored "
              "record or another entry: nothing enters a table on behalf of a member that is not stored), tables_closed (every stored index "
              "addresses an existing entry); hint bits = RFC 8618 and pairwise distinct (translator-regenerated); hint_probes_match_projection: the RFC reading of the hints "
-             "(project) lets through exactly the members the working tree's own exporter+reader return for a full record under 77 configurations "
+             "(project) lets through exactly the members the working tree's own exporter+reader return for a full record under 197 configurations "
              "(all bits, none, each bit cleared, each bit alone, per mask; translator T4 re-runs the probe on every run). Tie: the block the model "
              "builds + the model writer = the bytes of the block the library wrote for the same records and hints (bld driver, up to the "
              "hash-map order of the address-event array); plus the RFC projection via the independent Lean reader (single bit cleared/alone, "
